@@ -3,9 +3,15 @@
    to a context file with exactly the task's contexts and to EMPTY output files whose names
    are unique per execution (also across concurrent executions) are facts about the OS
    process; they are observed by the scripted hook on every case (C12_Spec.P_os) and not
-   proved.  Validity of each output file's content is the subject of C13/C14/C15/C16; here
-   a file is empty, valid, or malformed. *)
-From Verif Require Import Common C12_Model C12_Spec C12_Corr C12_Proofs.
+   proved.
+   The CONTENT of the metrics, admission-response and conversion-response files is part of the
+   input (any byte string, [FText s]); the model reads it with the RFC 8259 reader of JsonText
+   and decodes it the way encoding/json fills the Go structs.  "Malformed" is defined on the text
+   side (C12_Spec: v_metrics / v_admission / v_conversion, three-valued); the theorems tie the two
+   together for ALL byte strings.  The patch file is YAML: one of four kinds, as before.
+   KNOWN DEFECT carried as refuted/partial: a conversion response followed by other data is
+   accepted (trigger C12_Spec.T_conv). *)
+From Verif Require Import Common Json JsonText JsonText_Proofs C12_Model C12_Spec C12_Corr C12_Proofs.
 Open Scope N_scope.
 
 (* all temporary files of an execution are deleted when it ends, whatever the outcome —
@@ -14,36 +20,199 @@ Theorem C12_tmp_removed : forall i, o_remaining (run i) = 0.
 Proof. exact run_remaining. Qed.
 Print Assumptions C12_tmp_removed.
 
-(* a started execution succeeds iff the exit code is zero and all four outputs parse *)
-Theorem C12_success_iff : forall i,
-  o_started (run i) = true ->
-  (o_success (run i) = true <-> (i_exit i = 0%Z /\ all_parse i = true)).
-Proof. exact run_success_iff. Qed.
+(* where the text side decides (all_wf i = Some b) and outside the trigger: a started execution
+   succeeds iff the exit code is zero and all four outputs are well-formed *)
+Theorem C12_success_iff : forall i b,
+  o_started (run i) = true -> T_conv i = false -> all_wf i = Some b ->
+  (o_success (run i) = true <-> (i_exit i = 0%Z /\ b = true)).
+Proof. exact run_success_spec. Qed.
 Print Assumptions C12_success_iff.
+
+(* the same in the model's own terms, for every input: the five tests of Hook.Run / handleRunHook *)
+Theorem C12_success_iff_model : forall i,
+  o_started (run i) = true ->
+  (o_success (run i) = true <-> (i_exit i = 0%Z /\ model_ok i = true)).
+Proof. exact run_success_iff. Qed.
+Print Assumptions C12_success_iff_model.
 
 (* a non-zero exit is a failure and nothing is applied *)
 Theorem C12_nonzero_exit_fails : forall i, i_exit i <> 0%Z ->
-  o_success (run i) = false /\ o_metric_applied (run i) = false /\ o_patch_applied (run i) = false.
+  o_success (run i) = false /\ o_metric_applied (run i) = false /\ o_metric_unknown (run i) = false
+  /\ o_patch_applied (run i) = false.
 Proof. exact run_nonzero_exit. Qed.
 Print Assumptions C12_nonzero_exit_fails.
 
-(* outputs are applied only by a successful execution, and a successful one applies exactly
-   the non-empty ones *)
+(* metrics are applied only by a successful execution; the patch only after a zero exit with a
+   readable metrics file (it is applied before SendBatch validates the operations); a successful
+   execution applies exactly the outputs that have content *)
 Theorem C12_applied_iff : forall i,
-  (o_metric_applied (run i) = true -> o_success (run i) = true /\ i_metrics i = FValid) /\
-  (o_patch_applied (run i) = true -> o_success (run i) = true /\ i_patch i = FValid) /\
-  (o_success (run i) = true -> o_metric_applied (run i) = has_content (i_metrics i)
-                               /\ o_patch_applied (run i) = has_content (i_patch i)).
+  (o_metric_applied (run i) = true -> o_success (run i) = true /\ metrics_effect (i_metrics i) = TYes) /\
+  (o_metric_unknown (run i) = true -> o_success (run i) = true /\ metrics_effect (i_metrics i) = TMaybe) /\
+  (o_patch_applied (run i) = true -> i_exit i = 0%Z /\ i_patch i = FValid /\ metrics_decodes (i_metrics i) = true) /\
+  (o_success (run i) = true ->
+     o_patch_applied (run i) = patch_has_content (i_patch i)
+     /\ o_metric_applied (run i) = (match metrics_effect (i_metrics i) with TYes => true | _ => false end)
+     /\ o_metric_unknown (run i) = (match metrics_effect (i_metrics i) with TMaybe => true | _ => false end)).
 Proof. exact run_applied. Qed.
 Print Assumptions C12_applied_iff.
 
-(* the logic half of the property's predicate holds of the model on every input *)
-Theorem C12_model_P_logic : forall i o, P_logic i (model_obs (i, o)) = true.
+(* ---- text side = code side, per file, for every byte string ---- *)
+
+(* metrics: where the text-side verdict decides, it is the answer of MetricOperationsFromFile + ValidateOperations *)
+Theorem C12_metrics_wellformed_iff : forall k b,
+  v_metrics k = Some b -> (metrics_decodes k && metrics_valid k) = b.
+Proof. exact metrics_agree. Qed.
+Print Assumptions C12_metrics_wellformed_iff.
+
+(* one metric operation: the documented rules are ValidateMetricOperation's (on documents whose
+   keys are exact, unique and non-null) *)
+Theorem C12_metric_rules_agree : forall d b,
+  doc_verdict metric_doc metric_rules d = Some b -> metric_doc_ok d = b.
+Proof. exact metric_doc_agree. Qed.
+Print Assumptions C12_metric_rules_agree.
+
+Theorem C12_admission_wellformed_iff : forall k b, v_admission k = Some b -> admission_parses k = b.
+Proof. exact admission_agree. Qed.
+Print Assumptions C12_admission_wellformed_iff.
+
+Theorem C12_conversion_wellformed_iff : forall i b,
+  T_conv i = false -> v_conversion (i_conversion i) = Some b -> conversion_parses (i_conversion i) = b.
+Proof. exact conversion_agree. Qed.
+Print Assumptions C12_conversion_wellformed_iff.
+
+(* what the harness can see of "applied": where the text side says the probe metric must / must
+   not exist after a successful run, the model says the same and is sure of it *)
+Theorem C12_metric_applied_expected : forall k b,
+  expect_metric k = Some b -> metrics_decodes k = true -> metrics_effect k = if b then TYes else TNo.
+Proof. exact expect_agree. Qed.
+Print Assumptions C12_metric_applied_expected.
+
+(* ---- "a malformed output fails the execution" for whole classes of texts ---- *)
+
+(* ANY accepted stream of documents, then optional whitespace, then a stray } ] , or : (and
+   whatever follows): malformed, the execution fails, nothing is applied *)
+Theorem C12_metrics_stray_fails : forall i a js w c rest,
+  i_metrics i = FText (a ++ w ++ c :: rest) -> parse_stream a = Some js -> all_ws w = true -> stray c = true ->
+  v_metrics (i_metrics i) = Some false /\ nothing_done i.
+Proof. exact metrics_stray_fails. Qed.
+Print Assumptions C12_metrics_stray_fails.
+
+(* a file that ends anywhere inside an object or array *)
+Theorem C12_metrics_truncated_fails : forall i j p q,
+  i_metrics i = FText p -> wf_json j = true -> is_scalar j = false -> print_value j = p ++ q -> p <> [] -> q <> [] ->
+  v_metrics (i_metrics i) = Some false /\ nothing_done i.
+Proof. exact metrics_truncated_fails. Qed.
+Print Assumptions C12_metrics_truncated_fails.
+
+Theorem C12_admission_stray_fails : forall i a j w c rest,
+  i_admission i = FText (a ++ w ++ c :: rest) -> parse_single a = Some j -> all_ws w = true -> stray c = true ->
+  v_admission (i_admission i) = Some false /\ o_success (run i) = false.
+Proof. exact admission_stray_fails. Qed.
+Print Assumptions C12_admission_stray_fails.
+
+Theorem C12_admission_truncated_fails : forall i j p q,
+  i_admission i = FText p -> wf_json j = true -> is_scalar j = false -> print_value j = p ++ q -> p <> [] -> q <> [] ->
+  v_admission (i_admission i) = Some false /\ o_success (run i) = false.
+Proof. exact admission_truncated_fails. Qed.
+Print Assumptions C12_admission_truncated_fails.
+
+Theorem C12_conversion_truncated_fails : forall i j p q,
+  i_conversion i = FText p -> wf_json j = true -> is_scalar j = false -> print_value j = p ++ q -> p <> [] -> q <> [] ->
+  v_conversion (i_conversion i) = Some false /\ o_success (run i) = false.
+Proof. exact conversion_truncated_fails. Qed.
+Print Assumptions C12_conversion_truncated_fails.
+
+Theorem C12_conversion_leading_stray_fails : forall i w c rest,
+  i_conversion i = FText (w ++ c :: rest) -> all_ws w = true -> stray c = true ->
+  v_conversion (i_conversion i) = Some false /\ o_success (run i) = false.
+Proof. exact conversion_leading_stray_fails. Qed.
+Print Assumptions C12_conversion_leading_stray_fails.
+
+(* the other direction: documents the schema accepts, printed one per line, are well-formed and
+   pass both the decoder and the validation *)
+Theorem C12_metrics_printed_succeeds : forall i js,
+  i_metrics i = FText (print_docs js) -> forallb wf_json js = true ->
+  (forall d, In d js -> doc_verdict metric_doc metric_rules d = Some true) ->
+  v_metrics (i_metrics i) = Some true
+  /\ metrics_decodes (i_metrics i) = true /\ metrics_valid (i_metrics i) = true.
+Proof. exact metrics_printed_succeeds. Qed.
+Print Assumptions C12_metrics_printed_succeeds.
+
+(* ---- the JSON reader itself (JsonText_Proofs), restated here so that they are obligations of C12 ---- *)
+Theorem C12_json_no_out_of_fuel : forall s,
+  parse_single_res s <> OutOfFuel /\ parse_stream_res s <> OutOfFuel.
+Proof. intros s. split; [apply parse_single_fuel | apply parse_stream_fuel]. Qed.
+Print Assumptions C12_json_no_out_of_fuel.
+
+Theorem C12_json_roundtrip : forall j, wf_json j = true -> parse_single (print_value j) = Some j.
+Proof. exact roundtrip_single. Qed.
+Print Assumptions C12_json_roundtrip.
+
+Theorem C12_json_roundtrip_stream : forall js, forallb wf_json js = true -> parse_stream (print_docs js) = Some js.
+Proof. exact roundtrip_stream. Qed.
+Print Assumptions C12_json_roundtrip_stream.
+
+Theorem C12_json_stray_rejected : forall a js w c rest,
+  parse_stream a = Some js -> all_ws w = true -> stray c = true -> parse_stream (a ++ w ++ c :: rest) = None.
+Proof. exact stream_stray_rejected. Qed.
+Print Assumptions C12_json_stray_rejected.
+
+Theorem C12_json_truncation_rejected : forall j p q, wf_json j = true -> is_scalar j = false ->
+  print_value j = p ++ q -> p <> [] -> q <> [] ->
+  parse_single p = None /\ parse_stream p = None /\ parse_first p = None.
+Proof.
+  intros j p q WF SC E NP NQ. destruct (truncation_rejected j p q WF SC E NP NQ) as [H1 H2].
+  repeat split; auto. apply (truncation_first_rejected j p q WF SC E NP NQ).
+Qed.
+Print Assumptions C12_json_truncation_rejected.
+
+Theorem C12_json_whitespace_only : forall s, all_ws s = true -> parse_stream s = Some [] /\ parse_single s = None.
+Proof. intros s H. split; [now apply stream_ws | now apply single_ws]. Qed.
+Print Assumptions C12_json_whitespace_only.
+
+(* ---- the whole predicate; the conversion finding ---- *)
+
+(* the full statement: the logic half of P holds of the model on every input ... *)
+Definition C12_full_statement : Prop := forall i o, P_logic i (model_obs (i, o)) = true.
+
+(* ... is false: a conversion response followed by other data is malformed and accepted
+   (witness: the file `{"convertedObjects":[]} x`) *)
+Theorem C12_conv_trailing_refuted : exists i o, T_conv i = true /\ P_logic i (model_obs (i, o)) = false.
+Proof. exists conv_witness, any_obs. destruct conv_refuted as (H1 & H2 & _). auto. Qed.
+Print Assumptions C12_conv_trailing_refuted.
+
+(* ... and true everywhere else *)
+Theorem C12_model_P_logic : forall i o, T_conv i = false -> P_logic i (model_obs (i, o)) = true.
 Proof. exact model_P_logic. Qed.
 Print Assumptions C12_model_P_logic.
+
+(* ---- non-vacuity ---- *)
+Definition ex_metrics_ok : bytes :=      (* {"name":"verif_c12_metric","set":1}\n{"group":"g","action":"expire"}\n *)
+  [123; 34; 110; 97; 109; 101; 34; 58; 34; 118; 101; 114; 105; 102; 95; 99; 49; 50; 95; 109; 101; 116; 114; 105; 99; 34; 44;
+   34; 115; 101; 116; 34; 58; 49; 125; 10;
+   123; 34; 103; 114; 111; 117; 112; 34; 58; 34; 103; 34; 44; 34; 97; 99; 116; 105; 111; 110; 34; 58; 34; 101; 120; 112; 105; 114; 101; 34; 125; 10].
+Definition ex_docs : list json :=
+  [JObj [(k_name, JStr probe_name); (k_set, JFlt [49])]; JObj [(k_group, JStr [103]); (k_action, JStr s_expire)]].
 
 Example C12_hyp_met :
   o_started (run (mkIn 0 FValid FValid FEmpty FEmpty false 0)) = true
   /\ o_success (run (mkIn 0 FValid FTruncated FEmpty FEmpty false 0)) = false
-  /\ o_started (run (mkIn 0 FEmpty FEmpty FEmpty FEmpty false 190)) = false.
-Proof. vm_compute. repeat split. Qed.
+  /\ o_started (run (mkIn 0 FEmpty FEmpty FEmpty FEmpty false 190)) = false
+  (* a text input on which the text side decides "well-formed", the run succeeds and the metric is expected *)
+  /\ print_docs ex_docs = ex_metrics_ok /\ forallb wf_json ex_docs = true
+  /\ (forall d, In d ex_docs -> doc_verdict metric_doc metric_rules d = Some true)
+  /\ all_wf (mkIn 0 (FText ex_metrics_ok) FValid FEmpty FEmpty false 0) = Some true
+  /\ o_success (run (mkIn 0 (FText ex_metrics_ok) FValid FEmpty FEmpty false 0)) = true
+  /\ expect_metric (FText ex_metrics_ok) = Some true
+  (* the stray-closer class: ex_metrics_ok ++ "" ++ "}" :: "\n{...}" *)
+  /\ parse_stream ex_metrics_ok = Some ex_docs /\ stray 125 = true
+  /\ all_wf (mkIn 0 (FText (ex_metrics_ok ++ [] ++ 125 :: ex_metrics_ok)) FEmpty FEmpty FEmpty false 0) = Some false
+  (* the truncation class: the first 20 bytes of the first document *)
+  /\ print_value (nth 0 ex_docs JNull) = firstn 20 ex_metrics_ok ++ skipn 20 (print_value (nth 0 ex_docs JNull))
+  (* verdicts that do not decide: a key in another letter case *)
+  /\ v_metrics (FText [123; 34; 78; 65; 77; 69; 34; 58; 34; 109; 34; 44; 34; 115; 101; 116; 34; 58; 49; 125]) = None.
+Proof.
+  repeat (split; [vm_compute; reflexivity|]).
+  split; [intros d [<-|[<-|[]]]; vm_compute; reflexivity|].
+  repeat (split; [vm_compute; reflexivity|]). vm_compute; reflexivity.
+Qed.
